@@ -81,6 +81,7 @@ type Case struct {
 	MaxRand int             `json:"maxrand,omitempty"`
 	NoLat   bool            `json:"nolat,omitempty"`
 	KeepLog bool `json:"keeplog,omitempty"`
+	Audit   bool `json:"audit,omitempty"`
 	// FaultPhase restricts faults to the group phase with this index (-1/0 = all).
 	FaultPhase int `json:"faultphase,omitempty"`
 }
@@ -159,6 +160,7 @@ type Result struct {
 	Hang       bool
 	InfraErr   string
 	FilesAtEnd []string
+	Audit      *Audit
 }
 
 // ---- execution -------------------------------------------------------------------------------
@@ -221,7 +223,7 @@ func NewEnv(c *Case) (*Env, error) {
 }
 
 // Close tears the environment down.
-func (e *Env) Close() { e.W.Close(false) }
+func (e *Env) Close() { e.W.Close(os.Getenv("VERIF_KEEPDIR") != "") }
 
 func (e *Env) txOptions(mode string, maxTime int) sop.TransactionOptions {
 	m := sop.ForWriting
@@ -756,6 +758,9 @@ func Execute(c *Case) (res *Result) {
 	res.Hash = e.S.LogHash()
 	res.Steps = e.S.Steps()
 	res.FilesAtEnd = e.W.ListFiles()
+	if c.Audit {
+		res.Audit = AuditFolder(e.Folder)
+	}
 	return res
 }
 
